@@ -68,6 +68,7 @@ def obs_rows(res):
 REDUCTIONS = ["size", "count", "sum", "mean", "min", "max", "first", "last", "var", "std", "median"]
 ROW_OPS = ["cumsum", "cummin", "cummax", "cumcount", "rolling_sum", "rolling_mean", "rolling_min", "rolling_max", "shift", "diff", "ema", "ema_timed"]
 SELECT_OPS = ["head", "tail", "nth"]
+COMPOSITE_OPS = ["value_counts", "agg1", "aggL", "ratio", "density", "quantile", "apply"]
 
 
 def run_op(gb, op, values, mask=None, transform=False, times=None, **kw):
@@ -92,6 +93,24 @@ def run_op(gb, op, values, mask=None, transform=False, times=None, **kw):
         return obs_rows(gb.ema(values, alpha=0.5, mask=mask))
     if op == "ema_timed":
         return obs_rows(gb.ema(values, halflife="2s", times=times, mask=mask))
+    if op in COMPOSITE_OPS:
+        # composite / helper operations that accept a mask; `values` may hold nulls, the second operand of ratio is derived from it
+        from groupby_lib.groupby.core import value_counts
+        if op == "value_counts":
+            return obs_labels(value_counts(kw["raw_keys"], mask=mask))
+        if op == "agg1":
+            return obs_labels(gb.agg(values, "sum", mask=mask))
+        if op == "aggL":
+            return obs_labels(gb.agg(values, ["sum", "max", "count"], mask=mask))
+        if op == "ratio":
+            other = np.where(np.isnan(values), np.nan, np.abs(values) + 1.0)
+            return obs_labels(gb.ratio(np.abs(values) + 1.0, other * 2.0, mask=mask))
+        if op == "density":
+            return obs_labels(gb.density(np.abs(values) + 1.0, mask=mask))
+        if op == "quantile":
+            return obs_labels(gb.quantile(values, q=[0.5], mask=mask))
+        if op == "apply":
+            return obs_labels(gb.apply(values, np.nansum, mask=mask))
     if op in SELECT_OPS:
         n = kw.get("n", 1)
         res = getattr(gb, op)(values, n, keep_input_index=True)
